@@ -1004,8 +1004,11 @@ fn make_var_heavy(r: &mut Rng, p: &mut Prog, d: &J) {
         let op3 = if matches!(l3, J::List(_)) && r.chance(1, 2) { Op::In } else { Op::Eq };
         let not3 = r.chance(1, 3);
         p.prules.push(rules::PRule { name: "twp".into(), params: vec!["tx".into(), "ty".into()], body: Body { lets: vec![], lines: vec![cmp(var("tx"), op3, not3, Some(rules::Rhs::Query(var("ty"))))] } });
-        p.rules.push(rule("tw3_a".into(), vec![], vec![Line { alts: vec![Clause::Call { not: false, name: "twp".into(), args: vec![Arg::Query(kq_plain.clone()), Arg::Lit(l3.clone())], msg: None }] }]));
-        p.rules.push(rule("tw3_b".into(), vec![], vec![cmp(kq_plain, op3, not3, Some(rules::Rhs::Lit(l3)))]));
+        // the argument query may carry a step that leaves it unresolved (never the erring filter:
+        // both sides of this pair evaluate the query in place)
+        let kq3 = if shape <= 3 { kq.clone() } else { kq_plain };
+        p.rules.push(rule("tw3_a".into(), vec![], vec![Line { alts: vec![Clause::Call { not: false, name: "twp".into(), args: vec![Arg::Query(kq3.clone()), Arg::Lit(l3.clone())], msg: None }] }]));
+        p.rules.push(rule("tw3_b".into(), vec![], vec![cmp(kq3, op3, not3, Some(rules::Rhs::Lit(l3)))]));
     }
     // an inner variable that shadows an outer one and is defined THROUGH another outer variable
     // whose own definition uses the outer one (sx -> sy -> outer sx): legal, no cycle; which
